@@ -181,6 +181,16 @@ impl Property for C12 {
                                 _ => "boxmap-out-of-file",
                             };
                             let _ = which;
+                            // classes are kept narrow so that a listed finding cannot hide a new
+                            // one: an asset nobody damaged is a class of its own, and so is an
+                            // overlap that does not involve a JPEG restart marker
+                            let mut class = class.to_string();
+                            if f.is_none() && class != "boxmap-overlap-or-unordered" {
+                                class.push_str("-on-undamaged-asset");
+                            }
+                            if class == "boxmap-overlap-or-unordered" && !(fmt == Fmt::Jpeg && detail.contains("RST")) {
+                                class.push_str(if f.is_none() { "-on-undamaged-asset" } else { "-other" });
+                            }
                             out.violate(sub, &format!("{class}:{}", fmt.name()),
                                 "C12 box list ordered, non-overlapping, within the file, covering every byte",
                                 json!({"scenario": tag, "fault": f.as_ref().map(|f| f.describe()), "entries": n, "clause": c, "detail": detail, "file_len": bytes.len()}));
@@ -204,7 +214,7 @@ impl Property for C12 {
                     ok_locs += 1;
                     out.keys.push(hash_str(&format!("{tag}|loc|{i}")));
                     if let Some(c) = clause {
-                        out.violate(sub, &format!("locations:{}:{c}", fmt.name()),
+                        out.violate(sub, &format!("locations:{}:{c}{}", fmt.name(), if f.is_none() { ":on-undamaged-asset" } else { "" }),
                             "C12 manifest region within the file and disjoint from non-manifest regions",
                             json!({"scenario": tag, "fault": f.as_ref().map(|f| f.describe()), "detail": detail, "file_len": bytes.len()}));
                     }
